@@ -1,7 +1,7 @@
 //! Generated configurations assembled from shipped components (real-valued, population based).
 
 use mahf::{
-    components::{archive, boundary, initialization, mutation, recombination, replacement, selection},
+    components::{archive, boundary, diversity, initialization, mutation, recombination, replacement, selection},
     conditions::{EveryN, LessThanN, RandomChance},
     logging::Logger,
     Component, Configuration,
@@ -26,16 +26,33 @@ pub struct GenConf {
     /// extra evaluation + best update every k-th iteration inside a branch
     pub every: u32,
     pub iters: u32,
+    /// diversity measure executed at the end of every pass: 0 none, 1 dimension-wise, 2 pairwise distance,
+    /// 3 true diversity, 4 distance to the average point
+    #[serde(default)]
+    pub diversity: u8,
+    /// large population: 128 is added to `pop`
+    #[serde(default)]
+    pub big: bool,
 }
 
 pub fn gen_conf_strategy(max_iters: u32) -> impl Strategy<Value = GenConf> {
-    (2u32..12, 1u32..14, 0u8..7, 0u8..4, 0u8..4, 0u8..4, 0u8..3, proptest::option::of(0usize..4), prop_oneof![Just(1.0), Just(0.5), 0.0f64..=1.0], 1u32..4, 0u32..=max_iters)
-        .prop_map(|(pop, lambda, sel, xo, mutation, bound, repl, archive, pm, every, iters)| GenConf { pop, lambda, sel, xo, mutation, bound, repl, archive, pm, every, iters })
+    (2u32..12, 1u32..14, 0u8..7, 0u8..4, 0u8..4, 0u8..4, 0u8..3, proptest::option::of(0usize..4), prop_oneof![Just(1.0), Just(0.5), 0.0f64..=1.0], 1u32..4, (0u32..=max_iters, prop_oneof![3 => Just(0u8), 4 => 1u8..5], prop_oneof![7 => Just(false), 1 => Just(true)]))
+        .prop_map(|(pop, lambda, sel, xo, mutation, bound, repl, archive, pm, every, (iters, diversity, big))| GenConf { pop, lambda, sel, xo, mutation, bound, repl, archive, pm, every, iters, diversity, big })
 }
 
 impl GenConf {
     pub fn build(&self) -> Configuration<RealP> {
-        let g = self.clone();
+        let mut g = self.clone();
+        if g.big {
+            g.pop += 128;
+        }
+        let diversity: Option<Box<dyn Component<RealP>>> = match g.diversity % 5 {
+            0 => None,
+            1 => Some(diversity::DimensionWiseDiversity::new()),
+            2 => Some(diversity::PairwiseDistanceDiversity::new()),
+            3 => Some(diversity::TrueDiversity::new()),
+            _ => Some(diversity::DistanceToAveragePointDiversity::new()),
+        };
         let lambda = g.lambda.max(1);
         let selection: Box<dyn Component<RealP>> = match g.sel % 7 {
             0 => selection::Tournament::new(lambda, 1 + (g.pop - 1).min(2)),
@@ -82,6 +99,7 @@ impl GenConf {
                     b = b.do_(archive::ElitistArchiveUpdate::new(k)).do_(archive::ElitistArchiveIntoPopulation::new());
                 }
                 b.do_(replacement)
+                    .do_if_some_(diversity)
                     .if_(EveryN::iterations(every), |b| b.evaluate().update_best_individual())
                     .do_(Logger::new())
             })
